@@ -273,6 +273,11 @@ def run(g: RCFG, env: Env) -> Result:
                 if a * b > MAXU64:
                     raise Panic("overflow")
                 stack.append(a * b)
+            elif op == "balance":
+                if env.mode != "app":
+                    raise Panic("balance in signature mode")
+                pop()
+                stack.append(5000000)
             elif op == "pop":
                 pop()
             elif op == "dup":
